@@ -10,10 +10,21 @@ Open Scope Z_scope.
 Inductive qop :=
 | QWrite (w : wop)
 | QKeys (o_keys : list rk)                                  (* the store's reference keys right now *)
+| QHide (ds : Z)                                            (* the dataset is deleted (not garbage collected) *)
 | QRelated (starts : list uri) (pred : Z) (inverse : bool) (req : list Z) (at_ : Z) (limits : list Z)
            (o_pages : option (list (list (Z * Z * Z)))).   (* observed pages of (start, predicate, related); None = refused *)
 
 Record tcase := { tc_ds : list Z; tc_ops : list qop }.
+
+(** DsManager.DeleteDataset without garbage collection, as far as readers are concerned: the dataset's name no longer
+    resolves and every reader skips its keys and versions (s.deletedDatasets).  C07 proves that hiding; here it only
+    lets the correspondence ask relation queries after a delete (through the job entry point, whose store copy must
+    carry the deleted set too). *)
+Definition rhide (ds : Z) (rs : rstore) : rstore :=
+  {| rs_st := {| s_ds := filter (fun p => negb (Z.eqb (fst p) ds)) (s_ds (rs_st rs)); s_clock := s_clock (rs_st rs) |};
+     rs_known := rs_known rs;
+     rs_keys := filter (fun k => negb (Z.eqb (r_ds k) ds)) (rs_keys rs) |}.
+Definition dhide (ds : Z) (dss : list Z) : list Z := filter (fun d => negb (Z.eqb d ds)) dss.
 
 Record variant := { v_eq : eqflags; v_dup : dup_mode; v_q : qflags }.
 
@@ -83,6 +94,7 @@ Definition fuel0 : nat := 200.
 Definition agree_op (v : variant) (dss : list Z) (rs : rstore) (o : qop) : bool :=
   match o with
   | QWrite _ => true
+  | QHide _ => true
   | QKeys ok => keys_eq (rs_keys rs) ok
   | QRelated starts pred inverse req at_ limits o_pages =>
     match query_pages (v_q v) rs dss starts pred inverse req at_ limits fuel0, o_pages with
@@ -96,6 +108,7 @@ Fixpoint agree_run (v : variant) (dss : list Z) (rs : rstore) (ops : list qop) :
   match ops with
   | [] => true
   | QWrite w :: ops' => agree_run v dss (rapply (v_eq v) (v_dup v) rs w) ops'
+  | QHide d :: ops' => agree_run v (dhide d dss) (rhide d rs) ops'
   | o :: ops' => agree_op v dss rs o && agree_run v dss rs ops'
   end.
 
@@ -139,6 +152,7 @@ Fixpoint spec_run (dss : list Z) (rs : rstore) (ops : list qop) : bool :=
   match ops with
   | [] => true
   | QWrite w :: ops' => spec_run dss (rapply (v_eq v_fixed) (v_dup v_fixed) rs w) ops'
+  | QHide d :: ops' => spec_run (dhide d dss) (rhide d rs) ops'
   | o :: ops' => spec_op_ok dss rs o && spec_run dss rs ops'
   end.
 Definition spec_ok (c : tcase) : bool := spec_run (tc_ds c) rstore0 (tc_ops c).
@@ -149,14 +163,20 @@ Definition evaluate (cs : list tcase) : list (list N) :=
 
 (** is there an op on which the spec fails on the implementation's observation AND the pinned model does
     not predict that observation?  (a spec failure the known deviations do not explain) *)
-Fixpoint unexplained_run (dss : list Z) (rc rf : rstore) (ops : list qop) : bool :=
+Fixpoint unexplained_run (vc : variant) (dss : list Z) (rc rf : rstore) (ops : list qop) : bool :=
   match ops with
   | [] => false
   | QWrite w :: ops' =>
-    unexplained_run dss (rapply (v_eq v_current) (v_dup v_current) rc w) (rapply (v_eq v_fixed) (v_dup v_fixed) rf w) ops'
-  | o :: ops' => (negb (spec_op_ok dss rf o) && negb (agree_op v_current dss rc o)) || unexplained_run dss rc rf ops'
+    unexplained_run vc dss (rapply (v_eq vc) (v_dup vc) rc w) (rapply (v_eq v_fixed) (v_dup v_fixed) rf w) ops'
+  | QHide d :: ops' => unexplained_run vc (dhide d dss) (rhide d rc) (rhide d rf) ops'
+  | o :: ops' => (negb (spec_op_ok dss rf o) && negb (agree_op vc dss rc o)) || unexplained_run vc dss rc rf ops'
   end.
-Definition unexplained (c : tcase) : bool := unexplained_run (tc_ds c) rstore0 rstore0 (tc_ops c).
+(** "the pinned model" = the pinned scans with any of the four write-path variants (the write-path repairs F01a / F02a
+    may or may not be in the tree) *)
+Definition pinned_variants : list variant :=
+  flat_map (fun lk => map (fun dm => mk_variant lk dm true true true) [DupStoredAndLocal; DupLocalElseStored]) [true; false].
+Definition unexplained (c : tcase) : bool :=
+  forallb (fun vc => unexplained_run vc (tc_ds c) rstore0 rstore0 (tc_ops c)) pinned_variants.
 Definition unexplained_all (cs : list tcase) : list (list N) := [indices_where unexplained cs].
 
 (** diagnostics: index of the first op the model (variant v) does not predict, and the model's pages for it *)
@@ -164,6 +184,7 @@ Fixpoint first_bad (v : variant) (dss : list Z) (rs : rstore) (ops : list qop) (
   match ops with
   | [] => None
   | QWrite w :: ops' => first_bad v dss (rapply (v_eq v) (v_dup v) rs w) ops' (N.succ i)
+  | QHide d :: ops' => first_bad v (dhide d dss) (rhide d rs) ops' (N.succ i)
   | o :: ops' => if agree_op v dss rs o then first_bad v dss rs ops' (N.succ i) else Some i
   end.
 Definition res_obs (inverse : bool) (r : res) : list (Z * Z * Z) :=
@@ -172,6 +193,7 @@ Fixpoint predict (v : variant) (dss : list Z) (rs : rstore) (ops : list qop) : l
   match ops with
   | [] => []
   | QWrite w :: ops' => predict v dss (rapply (v_eq v) (v_dup v) rs w) ops'
+  | QHide d :: ops' => predict v (dhide d dss) (rhide d rs) ops'
   | QRelated starts pred inverse req at_ limits _ :: ops' =>
     match query_pages (v_q v) rs dss starts pred inverse req at_ limits fuel0 with
     | Some pgs => map (fun pg => flat_map (res_obs inverse) pg) pgs
